@@ -642,15 +642,37 @@ fn ext2_expr(rng: &mut Rng, sc: &Scope, depth: u32) -> Expr {
             _ => Expr::Attr(Box::new(var("m1")), "k".into()),
         }
     };
+    // `?.` and `?[` are only parsed after an identifier path (parser.rs parse_ident), not after `)`
+    let is_path = |e: &Expr| {
+        let mut e = e;
+        loop {
+            match e {
+                Expr::Var(_) => return true,
+                Expr::Attr(x, _) | Expr::AttrOpt(x, _) => e = x,
+                _ => return false,
+            }
+        }
+    };
+    let path = |rng: &mut Rng| -> Expr {
+        match rng.below(3) {
+            0 => Expr::Attr(Box::new(var("m1")), rng.pick(&["k", "nokey"]).to_string()),
+            1 => Expr::AttrOpt(Box::new(var(*rng.pick(&["u", "m1", "rows"]))), "k".into()),
+            _ => var(*rng.pick(&["arr", "s", "rows", "nest", "m1", "u"])),
+        }
+    };
     match rng.below(9) {
-        0 => Expr::AttrOpt(Box::new(base(rng)), rng.pick(&["x", "k", "nope"]).to_string()),
-        1 | 2 => Expr::Sub(rng.chance(1, 3), Box::new(base(rng)), Box::new(idx(rng))),
+        0 => Expr::AttrOpt(Box::new(path(rng)), rng.pick(&["x", "k", "nope"]).to_string()),
+        1 | 2 => {
+            let b = base(rng);
+            Expr::Sub(is_path(&b) && rng.chance(1, 2), Box::new(b), Box::new(idx(rng)))
+        }
         3 | 4 => {
             let mut part = |rng: &mut Rng| if rng.chance(1, 2) { Some(Box::new(idx(rng))) } else { None };
             let a = part(rng);
             let b = part(rng);
             let c = if rng.chance(1, 3) { Some(Box::new(if rng.chance(1, 2) { Expr::Neg(Box::new(cint(1))) } else { cint(rng.range(1, 3)) })) } else { None };
-            Expr::Slice(rng.chance(1, 3), Box::new(base(rng)), a, b, c)
+            let e = base(rng);
+            Expr::Slice(is_path(&e) && rng.chance(1, 2), Box::new(e), a, b, c)
         }
         5 => match rng.below(3) {
             0 => Expr::Call("now", vec![]),
